@@ -58,6 +58,21 @@ def install_abstract(run, envelope_for):
     run.engine.overrides[ev.Activation.resolve_function] = resolve
 
 
+class IdentDom(V.StrDom):
+    """a field name as the grammar's IDENT terminal spells it: non-empty, starting with a letter or underscore.  (The empty
+    string hashes to 0 like the int key 0: CPython's dict lookup would then compare the two keys - a collision that no
+    identifier can produce, and that the engine's structural dict model does not represent.)"""
+
+    def samples(self):
+        return [x for x in super().samples() if x and (x[0].isalpha() or x[0] == "_")]
+
+    def make(self, run, name):
+        v = super().make(run, name)
+        c = z3.StrToCode(z3.SubString(v.t, 0, 1))
+        run.assume(z3.And(z3.Length(v.t) >= 1, z3.Or(z3.And(c >= 65, c <= 90), z3.And(c >= 97, c <= 122), c == 95)))
+        return v
+
+
 def envelope_rule(method, shape, args, name, functions_known=True, native=False):
     def env_for(n):
         if n in DECLARED:
@@ -107,6 +122,12 @@ def contracts():
     cs.append(envelope_rule("member_dot", ("member_dot", [STUB("x"), TOK("IDENT", "$name")]),
                             [("x", V.FnDom(lambda run, name: VDict(ct.MapType, [[VStr(ct.StringType, z3.String(name + "_k")), VInt(ct.IntType, z3.Int(name + "_v"))]]), "MapType{k:v}", native=lambda: [ct.MapType({ct.StringType("a"): ct.IntType(1)})])),
                              ("name", V.StrDom(str))], "Evaluator.member_dot(map with an entry)", native=True))
+    # two entries whose keys are of different kinds (a CEL map may have int, uint, bool and string keys side by side)
+    cs.append(envelope_rule("member_dot", ("member_dot", [STUB("x"), TOK("IDENT", "$name")]),
+                            [("x", V.FnDom(lambda run, name: VDict(ct.MapType, [[VStr(ct.StringType, z3.String(name + "_k")), VInt(ct.IntType, z3.Int(name + "_v"))],
+                                                                                [VInt(ct.IntType, z3.Int(name + "_k2")), VInt(ct.IntType, z3.Int(name + "_v2"))]]),
+                                           "MapType{string:v,int:v}", native=lambda: [ct.MapType({ct.StringType("a"): ct.IntType(1), ct.IntType(2): ct.IntType(3)})])),
+                             ("name", IdentDom(str))], "Evaluator.member_dot(map with a string and an int key)", native=True))
     return cs
 
 
